@@ -3,6 +3,7 @@ import WuffsVerif.Model.StdHash
 import WuffsVerif.Model.Sha256Fips
 import WuffsVerif.Model.StdDeflate
 import WuffsVerif.Proof.StdDeflateTables
+import WuffsVerif.Proof.StdDeflateDynCheck
 import WuffsVerif.Model.StdSpecLzw
 import WuffsVerif.Model.StdSpecGzip
 /-! Line driver for C07 (std hashers and specification decoders).
@@ -22,12 +23,15 @@ import WuffsVerif.Model.StdSpecGzip
   wdec deflate <hex>       the MIRROR of std/deflate (Model/StdDeflate.lean: decode_blocks … decode_huffman_slow), one
                            transform_io call, closed source: `ok len= out= used=<source bytes consumed>` |
                            `err #deflate:_<status with _ for spaces>`
-  wdyn deflate <hex>       evidence for the open obligation `DynRefines` (Props/C07Deflate.lean): the specification's
-                           block loop and the mirror run side by side; at EVERY dynamic block the conclusion of
-                           `DynRefines` is evaluated (mirror accepts the header, same end bit, accumulator invariant,
-                           `tblOKb` and `agreeb` over all 2^15 windows for both tables) and after every block the two
-                           agree on position and output: `ok` | `skip <why>` (the specification does not decode the
-                           stream) | `bad <what>`
+  wdyn deflate <hex>       the HYPOTHESIS `DynOK` of `wuffs_deflate_refines_spec` (Props/C07Deflate.lean), evaluated: the
+                           specification's block loop and the mirror run side by side; at EVERY dynamic block
+                           `headerOKb` (= `HeaderOK`: complete code-length and literal/length codes, an end-of-block
+                           code, complete or one-code distance code — what makes the theorem applicable to the
+                           stream) and, as a run-time double check of the proved `DynRefines`, its conclusion (mirror
+                           accepts the header, same end bit, accumulator invariant, `tblOKb` and `agreeb` over all
+                           2^15 windows for both tables) are evaluated, and after every block the two agree on
+                           position and output: `ok` | `skip <why>` (the specification does not decode the stream) |
+                           `bad <what>`
 -/
 open WuffsVerif WuffsVerif.Line WuffsVerif.StdHash
 
@@ -114,6 +118,8 @@ def dynEvidence (s : StdDeflate.Bytes) (verbose : Bool) : String := Id.run do
         match Flate.Spec.dynamicHeader s (p + 3) with
         | .ok hl hd minL p1 =>
           ndyn := ndyn + 1
+          if !(headerOKb s (p + 3)) then
+            return s!"bad dyn@{p}: DynOK fails: a code-length set of this header is not one std/deflate accepts"
           match initDynamicHuffman s st3 with
           | .error e => return s!"bad dyn@{p}: the mirror rejects a header the specification accepts: {e}"
           | .ok st' =>
